@@ -4,8 +4,12 @@
 INDEX = {
     "C01": ["c01"],
     "C02": ["c01"],
-    "C03": ["c20"],
+    "C03": ["c20", "c16"],
+    "C04": ["c06"],
     "C05": ["c05"],
+    "C06": ["c06"],
+    "C07": ["c06"],
+    "C16": ["c16"],
     "C19": ["c19"],
     "C20": ["c20"],
 }
